@@ -9,12 +9,14 @@ from contracts.eam_common import *
 import contracts.setfl as SF
 import contracts.eam_tabulation as ET
 import contracts.refdata as RDc
+import contracts.builders_eam as BE
 
 F = SF.FILE
 FUNCTIONS = [(F, q) for q in ('_writeSetFLHeader', '_writeSetFLElementHeader', '_writeSetFLEmbeddingFunction', '_writeDensityFunction',
                               '_writeSetFLDensityFunction', '_writeSetFLPairPots', 'writeSetFL')] + [(ET.FILE, 'SetFL_EAMTabulation.write')] + \
-            [(RDc.F_RD, 'Reference_Data.get')] + [(RDc.F_EB, 'EAM_Potential_Builder.' + q) for q in ('_get_mass', '_get_atomic_number', '_get_lattice_constant', '_get_lattice_type', '_create_eam_potential')]
-SPECSEQS = [SF.fvals, SF.pvals, SF.labels]
+            [(RDc.F_RD, 'Reference_Data.get')] + [(RDc.F_EB, 'EAM_Potential_Builder.' + q) for q in ('_get_mass', '_get_atomic_number', '_get_lattice_constant', '_get_lattice_type', '_create_eam_potential')] + \
+            [(BE.F_EB, 'EAM_Potential_Builder.' + q) for q in ('_to_potential_form_dict', '_embed_species', '_density_species', '_add_null_embedding_functions', '_add_null_density_functions', '_init_eampotentials')]
+SPECSEQS = [SF.fvals, SF.pvals, SF.labels, BE.species_seq]
 
 def lemmas():
     out = []
@@ -62,6 +64,12 @@ def lemmas():
     return out + tables.routing_obligations('C03', ['setfl', 'lammps_eam_alloy'])
 
 MUTANTS = [
+    (BE.F_EB, 'EAM_Potential_Builder._add_null_embedding_functions', "for s in sorted(null_embed_species):", "for s in null_embed_species:", 'preserve/0'),
+    (BE.F_EB, 'EAM_Potential_Builder._add_null_embedding_functions', "null_embed_species = density_species - defined", "null_embed_species = density_species", 'preserve/0'),
+    (BE.F_EB, 'EAM_Potential_Builder._add_null_density_functions', "other_dict = density_dict.setdefault(s, null)", "density_dict[s] = null", 'preserve/0'),
+    (BE.F_EB, 'EAM_Potential_Builder._init_eampotentials', "if self.add_undefined:", "if not self.add_undefined:", 'init/0'),
+    (BE.F_EB, 'EAM_Potential_Builder._init_eampotentials', "potlist.append(pot)", "potlist.insert(0, pot)", 'preserve/0'),
+    (BE.F_EB, 'EAM_Potential_Builder._to_potential_form_dict', "species = t.species", "species = tuple_list[0].species", 'preserve/0'),
     (RDc.F_RD, 'Reference_Data.get', "species_dat.update(self.extra_data.get(species, {}))", "pass", 'post/override'),
     (RDc.F_RD, 'Reference_Data.get', "if not property_name in species_dat:", "if property_name in species_dat:", 'post'),
     (RDc.F_EB, 'EAM_Potential_Builder._get_lattice_constant', "return 0.0", "return 1.0", 'post'),
